@@ -30,9 +30,9 @@ ClusterID == 88
 P(lp, asp, med, ebgp, id, oid, clv, src, nh, comm, otc) ==
     [type |-> "bgp", lp |-> lp, aslen |-> Len(asp), origin |-> 0, med |-> med, ebgp |-> ebgp, id |-> id, oid |-> oid,
      cl |-> IF clv = <<>> THEN -1 ELSE Len(clv), src |-> src, nh |-> nh,
-     asp |-> asp, clv |-> clv, comm |-> comm, otc |-> otc, pid |-> 0, redist |-> FALSE, aggr |-> FALSE]
+     asp |-> asp, clv |-> clv, comm |-> comm, otc |-> otc, pid |-> 0, redist |-> FALSE, aggr |-> FALSE, unk |-> FALSE]
 S(nh) == [type |-> "static", lp |-> 0, aslen |-> 0, origin |-> 0, med |-> 0, ebgp |-> FALSE, id |-> 0, oid |-> 0, cl |-> -1,
-          src |-> 0, nh |-> nh, asp |-> <<>>, clv |-> <<>>, comm |-> {}, otc |-> 0, pid |-> 0, redist |-> FALSE, aggr |-> FALSE]
+          src |-> 0, nh |-> nh, asp |-> <<>>, clv |-> <<>>, comm |-> {}, otc |-> 0, pid |-> 0, redist |-> FALSE, aggr |-> FALSE, unk |-> FALSE]
 
 PD == [ e1 |-> P(100, <<65001, 65002>>, 0, TRUE, 11, 0, <<>>, 1, 1, {}, 0),          \* eBGP-learned
         e2 |-> P(100, <<65003>>, 0, TRUE, 12, 0, <<>>, 2, 2, {}, 0),                 \* eBGP-learned, shorter AS_PATH
@@ -57,6 +57,8 @@ PD == [ e1 |-> P(100, <<65001, 65002>>, 0, TRUE, 11, 0, <<>>, 1, 1, {}, 0),     
         dAsp  |-> P(100, <<65021>>, 0, TRUE, 30, 0, <<>>, 21, 21, {}, 0),
         dComm |-> P(100, <<65020>>, 0, TRUE, 30, 0, <<>>, 21, 21, {"c1"}, 0),
         dAggr |-> [P(100, <<65020>>, 0, TRUE, 30, 0, <<>>, 21, 21, {}, 0) EXCEPT !.aggr = TRUE],   \* carries an AGGREGATOR
+        dOtc  |-> P(100, <<65020>>, 0, TRUE, 30, 0, <<>>, 21, 21, {}, 65020),                        \* differs from d0 in OTC only
+        dUnk  |-> [P(100, <<65020>>, 0, TRUE, 30, 0, <<>>, 21, 21, {}, 0) EXCEPT !.unk = TRUE],    \* carries an unknown transitive attribute
         dOid  |-> P(100, <<65020>>, 0, FALSE, 30, 6, <<7>>, 21, 21, {}, 0),
         dOid2 |-> P(100, <<65020>>, 0, FALSE, 30, 8, <<7>>, 21, 21, {}, 0),
         dCl   |-> P(100, <<65020>>, 0, FALSE, 30, 6, <<7, 8>>, 21, 21, {}, 0) ]                                                               \* static route (redistributed)
@@ -115,7 +117,7 @@ ExportRules(p0) == ExportRulesS(T, PeerIP, p0)
 
 (* the fields a peer can observe *)
 Wire(p) == [asp |-> p.asp, nh |-> p.nh, lp |-> p.lp, med |-> p.med, oid |-> p.oid, clv |-> p.clv, comm |-> p.comm,
-            otc |-> p.otc, ebgpLearned |-> p.ebgp, redist |-> p.redist, aggr |-> p.aggr,
+            otc |-> p.otc, ebgpLearned |-> p.ebgp, redist |-> p.redist, aggr |-> p.aggr, unk |-> p.unk,
             id |-> p.id, src |-> p.src]     \* identity of the originating path (two paths may look alike on the wire)
 
 Export(po, x, n) ==
